@@ -32,7 +32,8 @@ View == <<sub, role, st, phase, inp, out>>
 
 DevNames == {"ParamLenZeroLoop", "ShortBody", "InitBundled", "DcepOpenExisting", "SackReversedGaps",
              "SackGapWork", "SackGapOverflow", "NoTcb", "BadUtf8", "SackBeyondSent",
-             "RembCount", "HdrExtLen", "EmptyDatagram"}
+             "RembCount", "HdrExtLen", "EmptyDatagram",
+             "SsnHeadOfLine", "ReinitKeepsSackState", "RembSsrcOverflow", "StaleFrameGuard"}
 ASSUME Deviations \subseteq DevNames
 
 (* ---- step budget: "work proportional to the datagram size" (profile events of the harness) ---- *)
@@ -42,7 +43,8 @@ Budget(n) == BudgetBase + BudgetPerByte * n
 
 (* ------------------------------------------------------------------ alphabet *)
 SctpSem == {
-    <<"ABORT", "plain">>, <<"ABORT", "wrong_tag">>, <<"ANY", "bad_checksum">>,
+    <<"ABORT", "plain">>, <<"ABORT", "then_reinit">>, <<"ABORT", "wrong_tag">>, <<"ANY", "bad_checksum">>,
+    <<"DATA", "sseq_stale">>, <<"DATA", "sseq_wrapped">>, <<"DATA", "sseq_future">>, <<"DATA", "orphan_fragment">>,
     <<"ANY", "wrong_tag">>, <<"COOKIE_ACK", "plain">>, <<"COOKIE_ECHO", "garbage">>,
     <<"DATA", "dcep_ack_open">>, <<"DATA", "dcep_ack_unknown">>, <<"DATA", "dcep_open_bad_utf8">>,
     <<"DATA", "dcep_open_existing">>, <<"DATA", "dcep_open_new">>,
@@ -82,7 +84,7 @@ MediaSem == {
     <<"RR", "odd">>, <<"RTCP", "framing_odd">>, <<"RTCP", "unknown_type">>,
     <<"RTP", "abs_send_time_odd">>, <<"RTP", "audio_odd">>, <<"RTP", "csrc_max">>,
     <<"RTP", "ext_bad_text">>, <<"RTP", "ext_framing_odd">>, <<"RTP", "ext_wrong_len">>,
-    <<"RTP", "h264_odd">>, <<"RTP", "looks_like_rtcp">>, <<"RTP", "padding_odd">>,
+    <<"RTP", "h264_odd">>, <<"RTP", "looks_like_rtcp">>, <<"RTP", "many_ssrcs">>, <<"RTP", "padding_odd">>,
     <<"RTP", "rtx_bad_apt">>, <<"RTP", "rtx_short">>, <<"RTP", "rtx_unknown_seq">>,
     <<"RTP", "rtx_unknown_ssrc">>, <<"RTP", "seq_jump">>, <<"RTP", "ts_nonsense">>,
     <<"RTP", "unknown_pt">>, <<"RTP", "unknown_ssrc">>, <<"RTP", "version_bad">>,
@@ -159,7 +161,7 @@ NewStates(sb, r, s, i) ==
   IF sb = "parser" THEN {s}
   ELSE IF i.m = "none" THEN
          IF sb = "media" THEN (IF i.k = "BYE" /\ i.c = "known" THEN {"ended"} ELSE {s})
-         ELSE IF GoodTag(i) /\ i.c \in {"plain", "no_cookie", "acks_all"}
+         ELSE IF GoodTag(i) /\ i.c \in {"plain", "no_cookie", "acks_all", "then_reinit"}
                 THEN (IF i.k = "SACK" THEN (IF s = "est_out" THEN {"est_idle"} ELSE {s}) ELSE {ValidEffect(r, s, i.k)})
                 ELSE {s}
   ELSE IF i.m \in AcceptedLike THEN {ValidEffect(r, s, i.k)}
@@ -186,6 +188,10 @@ Pred(D, sb, r, s, i) ==
     [] sb = "sctp" /\ "BadUtf8" \in D /\ i.k = "DATA" /\ i.c = "dcep_open_bad_utf8" /\ s \in HasTcb -> "crash"
     [] sb = "sctp" /\ "BadUtf8" \in D /\ i.k = "DATA" /\ i.c = "string_bad_utf8" /\ s \in Est \cup {"shut_ack"} -> "crash"
     [] sb = "sctp" /\ "SackBeyondSent" \in D /\ i.k = "SACK" /\ i.c \in {"cum_far_ahead", "cum_unsent"} /\ s # "shut_ack" -> "unserved"
+    [] sb = "sctp" /\ "SsnHeadOfLine" \in D /\ i.k = "DATA" /\ i.c \in {"sseq_future", "orphan_fragment"} /\ s \in Est -> "unserved"
+    [] sb = "sctp" /\ "ReinitKeepsSackState" \in D /\ i.k = "ABORT" /\ i.c = "then_reinit" /\ r = "server" /\ s \in HasTcb -> "crash"
+    [] sb = "media" /\ "RembSsrcOverflow" \in D /\ i.k = "RTP" /\ i.c = "many_ssrcs" -> "crash"
+    [] sb = "media" /\ "StaleFrameGuard" \in D /\ i.k = "RTP" /\ i.c = "ts_nonsense" /\ s = "m_idle" -> "unserved"
     [] sb = "media" /\ "RembCount" \in D /\ i.k = "PSFB" /\ i.c = "remb_odd" -> "crash"
     [] sb = "media" /\ "HdrExtLen" \in D /\ i.k = "RTP" /\ i.c = "ext_wrong_len" -> "crash"
     [] sb = "media" /\ "EmptyDatagram" \in D /\ i.m = "empty" -> "crash"
